@@ -100,9 +100,9 @@ func (m *Match) UnmarshalBinary(data []byte) error {
 		m.Fields = append(m.Fields, *field)
 		n += int(field.Len())
 	}
-	// the match is padded to a multiple of 8 bytes on the wire
-	if (n+7)/8*8 > len(data) {
-		return errors.New("the padded match exceeds the []byte")
+	// the fields end exactly at the declared length; the match is padded to a multiple of 8 bytes on the wire
+	if n != int(m.Length) || (n+7)/8*8 > len(data) || (n+7)/8*8 > 0xffff {
+		return errors.New("the match fields do not fit the declared length or the padded match exceeds the []byte")
 	}
 	return nil
 }
